@@ -160,7 +160,8 @@ def run_tlc(module, cfg, scratch, *, env=None, workers=1, simulate=None, depth=N
             timeout=3600, coverage=False, deque=False, xmx='2g', extra=(), dump=None, cont=False):
     """module: name in /verif/spec (without .tla).  cfg: path.  Returns TLCResult."""
     meta = scratch.sub('meta')
-    cmd = ['java', '-XX:+UseParallelGC', '-Xmx' + xmx]
+    # (TLC makes a scratch directory of its own under java.io.tmpdir on every start: inside ours, which is removed with the check)
+    cmd = ['java', '-XX:+UseParallelGC', '-Xmx' + xmx, '-Djava.io.tmpdir=' + meta]
     if deque:
         cmd.append('-Dtlc2.tool.queue.IStateQueue=StateDeque')
     cmd += ['-cp', TLC_CP, 'tlc2.TLC', '-metadir', meta, '-noGenerateSpecTE',
